@@ -186,11 +186,26 @@ theorem drawDown_head (gap : Int) (wants : Bool) (cursor : Nat) (H : Int) (rest 
       · simp at h; rw [← h]
       · rw [ht] at h; simp at h; rw [← h]
 
-/-- `Draw` preserves the invariant and does not panic (gap 0, repaired gutter guard). -/
-theorem draw_inv3 (F : Facts) (hF : F.cursorGuard = true) (cfg : Cfg) (hgap : cfg.gap = 0)
+/-- The phases of one `Draw` from a state satisfying `Inv3` (gap 0, repaired gutter guard): no phase
+    panics; the intermediate child lists and states with the facts the invariants need. -/
+theorem draw_phases (F : Facts) (hF : F.cursorGuard = true) (cfg : Cfg) (hgap : cfg.gap = 0)
     (hs : List Nat) (hlen : hs.length < 2 ^ 63) (s : St) (W H : Nat)
     (hW : W ≠ 65535) (hH : H ≠ 65535) (hi : Inv3 hs s) :
-    ∃ s' cs, draw F cfg hs s W H = .ok (s', cs) ∧ Inv3 hs s' := by
+    ∃ (ah2 : Int) (s2 : St) (cs0 cs1 cs2 : List Child) (s3 : St),
+      scrollUp F.insertStops hs (prologue s).2 (prologue s).1 = .ok (ah2, s2, cs0) ∧
+      cs1 = drawDown cfg.gap s2.wantsCursor s2.cursor H (hs.drop (prologue s).2.top) (prologue s).2.top ah2 cs0 ∧
+      Contig 0 cs1 ∧ Heights hs cs1 ∧ (∀ f, cs1.head? = some f → s2.top ≤ f.idx) ∧
+      reveal cs1 s2 H = .ok (cs2, s3) ∧ Contig 0 cs2 ∧ Heights hs cs2 ∧
+      (∀ f, cs2.head? = some f → s2.top ≤ f.idx) ∧
+      s3.top = s2.top ∧ s3.offset = s2.offset ∧ s3.cursor = s2.cursor ∧ s3.pending = s2.pending ∧
+      cs2.length = cs1.length ∧
+      (s3.wantsCursor = true → s2.top ≤ s2.cursor ∧ cs1.length ≤ s2.cursor - s2.top) ∧
+      (cs2 = cs1 ∨ ∃ (adj : Int) (m : Nat) (c' : Child),
+          cs2 = cs1.map (fun c => { c with row := c.row + adj }) ∧ cs2[m]? = some c' ∧
+          c'.row + (c'.height : Int) = H) ∧
+      s2.top ≤ s.top ∧ s2.cursor = s.cursor ∧ s2.pending = 0 ∧ (cs0 = [] → s2 = (prologue s).2) ∧
+      draw F cfg hs s W H = .ok ({ s3 with top := (retop cs2 0 (s3.top, s3.offset)).1,
+                                            offset := (retop cs2 0 (s3.top, s3.offset)).2 }, cs2) := by
   have hb : ¬ (H = 65535 ∨ W = 65535) := fun h => h.elim hH hW
   obtain ⟨p1, p2, p3, p4⟩ := prologue_spec s
   have htopU : (prologue s).2.top < U := by
@@ -243,68 +258,97 @@ theorem draw_inv3 (F : Facts) (hF : F.cursorGuard = true) (cfg : Cfg) (hgap : cf
     · rfl
   -- reveal
   have hrev : ∃ cs2 s3, reveal cs1 s2 H = .ok (cs2, s3) ∧ Contig 0 cs2 ∧ Heights hs cs2 ∧
-      (∀ f, cs2.head? = some f → s2.top ≤ f.idx) ∧ s3.top = s2.top ∧ s3.cursor = s2.cursor ∧
+      (∀ f, cs2.head? = some f → s2.top ≤ f.idx) ∧ s3.top = s2.top ∧ s3.offset = s2.offset ∧
+      s3.cursor = s2.cursor ∧ s3.pending = s2.pending ∧
       cs2.length = cs1.length ∧
-      (s3.wantsCursor = true → s2.top ≤ s2.cursor ∧ cs1.length ≤ s2.cursor - s2.top) := by
+      (s3.wantsCursor = true → s2.top ≤ s2.cursor ∧ cs1.length ≤ s2.cursor - s2.top) ∧
+      (cs2 = cs1 ∨ ∃ (adj : Int) (m : Nat) (c' : Child),
+          cs2 = cs1.map (fun c => { c with row := c.row + adj }) ∧ cs2[m]? = some c' ∧
+          c'.row + (c'.height : Int) = H) := by
     unfold reveal
     by_cases hw : s2.wantsCursor = true
     · have hle : s2.top ≤ s2.cursor := by
         have := hi.wants_ok (by rw [← hwants]; exact hw)
         rw [hcur]; omega
       rw [if_pos hw]
-      rcases cursorChild_ok cs1 s2.cursor s2.top hle hc63 with ⟨c, _, e⟩ | ⟨hl, e⟩
+      rcases cursorChild_ok cs1 s2.cursor s2.top hle hc63 with ⟨c, hcg, e⟩ | ⟨hl, e⟩
       · rw [e]
         simp only []
         split
-        · refine ⟨_, _, rfl, contig_shift _ dd.1, heights_shift _ dd.2, ?_, rfl, rfl, by simp, fun h => by cases h⟩
+        · refine ⟨_, _, rfl, contig_shift _ dd.1, heights_shift _ dd.2, ?_, rfl, rfl, rfl, rfl, by simp, (fun h => by cases h),
+            Or.inr ⟨_, s2.cursor - s2.top, { c with row := c.row + ((H : Int) - (c.row + (c.height : Int))) }, rfl, ?_, ?_⟩⟩
+          rotate_left
+          · rw [List.getElem?_map, hcg]; rfl
+          · show c.row + ((H : Int) - (c.row + (c.height : Int))) + (c.height : Int) = H; omega
           intro f hf
           rw [List.head?_map] at hf
           cases hh : cs1.head? with
           | none => rw [hh] at hf; cases hf
           | some g => rw [hh] at hf; simp at hf; rw [← hf]; exact hhead g hh
-        · exact ⟨_, _, rfl, dd.1, dd.2, hhead, rfl, rfl, rfl, fun h => by cases h⟩
+        · exact ⟨_, _, rfl, dd.1, dd.2, hhead, rfl, rfl, rfl, rfl, rfl, (fun h => by cases h), Or.inl rfl⟩
       · rw [e]
-        exact ⟨_, _, rfl, dd.1, dd.2, hhead, rfl, rfl, rfl, fun _ => ⟨hle, hl⟩⟩
+        exact ⟨_, _, rfl, dd.1, dd.2, hhead, rfl, rfl, rfl, rfl, rfl, (fun _ => ⟨hle, hl⟩), Or.inl rfl⟩
     · rw [if_neg hw]
-      exact ⟨_, _, rfl, dd.1, dd.2, hhead, rfl, rfl, rfl, fun h => absurd h hw⟩
-  obtain ⟨cs2, s3, hrv, c2, h2, hd2, t3, cu3, len2, w3⟩ := hrev
-  refine ⟨{ s3 with top := (retop cs2 0 (s3.top, s3.offset)).1, offset := (retop cs2 0 (s3.top, s3.offset)).2 }, cs2, ?_, ?_⟩
-  · unfold draw
-    rw [if_neg hb]
-    simp only [hsu]
-    rw [← hcs1, hgut]
-    simp only [hrv]
-  · -- the invariant after the final loop
-    have hn63 : s2.top < 2 ^ 63 := by
-      rcases hi.top_ok with h | h <;> omega
-    rcases retop_spec cs2 0 s3.top s3.offset c2 with hr | ⟨k, c, hk, _, hr⟩
-    · rw [hr]
-      refine ⟨?_, ?_, ?_⟩
-      · show s3.top = 0 ∨ s3.top < hs.length
-        rw [t3]; rcases hi.top_ok with h | h <;> omega
-      · intro hw; show s3.top ≤ s3.cursor; rw [t3, cu3]; exact (w3 hw).1
-      · show s3.cursor < 2 ^ 63; rw [cu3]; exact hc63
-    · rw [hr]
-      -- the covering child is child k: its index is head.idx + k < n
-      have hklt : k < cs2.length := getElem?_lt hk
-      obtain ⟨f, rest, hcs⟩ : ∃ f rest, cs2 = f :: rest := by
-        cases cs2 with
-        | nil => simp at hklt
-        | cons f rest => exact ⟨f, rest, rfl⟩
-      have hfi : s2.top ≤ f.idx := hd2 f (by rw [hcs]; rfl)
-      have hci := (contig_get (Int.le_refl 0) rest f (by rw [← hcs]; exact c2) k c (by rw [← hcs]; exact hk)).1
-      have hcn : c.idx < hs.length := getElem?_lt (h2 c (List.mem_of_getElem? hk))
-      have hua : uadd s3.top (0 + k) = s3.top + k := by
-        unfold uadd U; rw [t3]; omega
-      rw [hua]
-      refine ⟨?_, ?_, ?_⟩
-      · show s3.top + k = 0 ∨ s3.top + k < hs.length
-        rw [t3]; omega
-      · intro hw
-        show s3.top + k ≤ s3.cursor
-        obtain ⟨a, b⟩ := w3 hw
-        rw [t3, cu3]; omega
-      · show s3.cursor < 2 ^ 63; rw [cu3]; exact hc63
+      exact ⟨_, _, rfl, dd.1, dd.2, hhead, rfl, rfl, rfl, rfl, rfl, (fun h => absurd h hw), Or.inl rfl⟩
+  obtain ⟨cs2, s3, hrv, c2, h2, hd2, t3, o3, cu3, pe3, len2, w3, sh3⟩ := hrev
+  have hpend : s2.pending = 0 := by
+    have : (prologue s).2.pending = 0 := by unfold prologue; simp only []; split <;> rfl
+    have hsu' := hsu
+    unfold scrollUp at hsu'
+    split at hsu'
+    · simp only [] at hsu'
+      split at hsu'
+      · cases hsu'
+      · cases hsu'; exact this
+    · cases hsu'; exact this
+  refine ⟨ah2, s2, cs0, cs1, cs2, s3, hsu, hcs1, dd.1, dd.2, hhead, hrv, c2, h2, hd2, t3, o3, cu3, pe3, len2, w3, sh3,
+    htop2, hcur, hpend, st3, ?_⟩
+  unfold draw
+  rw [if_neg hb]
+  simp only [hsu]
+  rw [← hcs1, hgut]
+  simp only [hrv]
+
+/-- `Draw` preserves the invariant and does not panic (gap 0, repaired gutter guard). -/
+theorem draw_inv3 (F : Facts) (hF : F.cursorGuard = true) (cfg : Cfg) (hgap : cfg.gap = 0)
+    (hs : List Nat) (hlen : hs.length < 2 ^ 63) (s : St) (W H : Nat)
+    (hW : W ≠ 65535) (hH : H ≠ 65535) (hi : Inv3 hs s) :
+    ∃ s' cs, draw F cfg hs s W H = .ok (s', cs) ∧ Inv3 hs s' := by
+  obtain ⟨ah2, s2, cs0, cs1, cs2, s3, hsu, hcs1, dd1, dd2, hhead, hrv, c2, h2, hd2, t3, o3, cu3, pe3, len2, w3, sh3,
+    htop2, hcur, hpend, st3, hdraw⟩ := draw_phases F hF cfg hgap hs hlen s W H hW hH hi
+  have hc63 : s2.cursor < 2 ^ 63 := by rw [hcur]; exact hi.cur_ok
+  refine ⟨_, cs2, hdraw, ?_⟩
+  -- the invariant after the final loop
+  have hn63 : s2.top < 2 ^ 63 := by
+    rcases hi.top_ok with h | h <;> omega
+  rcases retop_spec cs2 0 s3.top s3.offset c2 with hr | ⟨k, c, hk, _, hr⟩
+  · rw [hr]
+    refine ⟨?_, ?_, ?_⟩
+    · show s3.top = 0 ∨ s3.top < hs.length
+      rw [t3]; rcases hi.top_ok with h | h <;> omega
+    · intro hw; show s3.top ≤ s3.cursor; rw [t3, cu3]; exact (w3 hw).1
+    · show s3.cursor < 2 ^ 63; rw [cu3]; exact hc63
+  · rw [hr]
+    -- the covering child is child k: its index is head.idx + k < n
+    have hklt : k < cs2.length := getElem?_lt hk
+    obtain ⟨f, rest, hcs⟩ : ∃ f rest, cs2 = f :: rest := by
+      cases cs2 with
+      | nil => simp at hklt
+      | cons f rest => exact ⟨f, rest, rfl⟩
+    have hfi : s2.top ≤ f.idx := hd2 f (by rw [hcs]; rfl)
+    have hci := (contig_get (Int.le_refl 0) rest f (by rw [← hcs]; exact c2) k c (by rw [← hcs]; exact hk)).1
+    have hcn : c.idx < hs.length := getElem?_lt (h2 c (List.mem_of_getElem? hk))
+    have hua : uadd s3.top (0 + k) = s3.top + k := by
+      unfold uadd U; rw [t3]; omega
+    rw [hua]
+    refine ⟨?_, ?_, ?_⟩
+    · show s3.top + k = 0 ∨ s3.top + k < hs.length
+      rw [t3]; omega
+    · intro hw
+      show s3.top + k ≤ s3.cursor
+      obtain ⟨a, b⟩ := w3 hw
+      rw [t3, cu3]; omega
+    · show s3.cursor < 2 ^ 63; rw [cu3]; exact hc63
 
 theorem ensureScroll_inv3 (hs : List Nat) (s : St) (c : Nat) (hi : Inv3 hs s) (hc : c < 2 ^ 63) :
     Inv3 hs (ensureScroll { s with cursor := c }) := by
@@ -367,5 +411,86 @@ theorem run_inv3 (F : Facts) (hF : F.cursorGuard = true) (cfg : Cfg) (hgap : cfg
     obtain ⟨s1, he, hi1⟩ := step_inv3 F hF cfg hgap hs hlen s op hi (ho op List.mem_cons_self)
     obtain ⟨s2, he2, hi2⟩ := run_inv3 F hF cfg hgap hs hlen ops s1 hi1 (fun o h => ho o (List.mem_cons_of_mem _ h))
     exact ⟨s2, by simp [run, he, he2], hi2⟩
+
+/-! ### the scroll state stays settled (gap 0, positive heights, repaired insertChildren) -/
+
+theorem contig_link {gap : Int} : ∀ (l : List Child) (m : Nat) (b c : Child), Contig gap l →
+    l[m]? = some b → l[m + 1]? = some c → Link gap b c
+  | [], _, _, _, _, h, _ => by simp at h
+  | [_], m, _, _, _, _, h => by simp at h
+  | a :: d :: rest, 0, b, c, hc, h1, h2 => by
+    simp at h1 h2; subst h1; subst h2; exact hc.1
+  | a :: d :: rest, m + 1, b, c, hc, h1, h2 =>
+    contig_link (d :: rest) m b c hc.2 (by simpa using h1) (by simpa using h2)
+
+/-- Contiguous children whose first starts at or above row 0 and one of which ends below row 0
+    contain a child covering row 0. -/
+theorem exists_cover : ∀ (m : Nat) (l : List Child) (f c : Child), Contig 0 l → l[0]? = some f → f.row ≤ 0 →
+    l[m]? = some c → 0 < c.row + (c.height : Int) → ∃ (k : Nat) (d : Child), l[k]? = some d ∧ Covers d
+  | 0, l, f, c, _, hf, hr, hc, he => by
+    rw [hf] at hc; cases hc; exact ⟨0, f, hf, hr, he⟩
+  | m + 1, l, f, c, hl, hf, hr, hc, he => by
+    have hm : m < l.length := by have := getElem?_lt hc; omega
+    have hb : l[m]? = some l[m] := List.getElem?_eq_getElem hm
+    by_cases hbe : 0 < (l[m]).row + ((l[m]).height : Int)
+    · exact exists_cover m l f l[m] hl hf hr hb hbe
+    · have lk := contig_link l m l[m] c hl hb hc
+      exact ⟨m + 1, c, hc, by have := lk.2; omega, he⟩
+
+theorem retop_hit : ∀ (cs : List Child) (k : Nat) (c : Child) (i0 top : Nat) (off : Int), Contig 0 cs →
+    cs[k]? = some c → Covers c → retop cs i0 (top, off) = (uadd top (i0 + k), - c.row)
+  | [], _, _, _, _, _, _, h, _ => by simp at h
+  | a :: rest, 0, c, i0, top, off, hc, hk, hcov => by
+    simp at hk; subst hk
+    have hcov' : a.row ≤ 0 ∧ a.row + (a.height : Int) > 0 := ⟨hcov.1, by have := hcov.2; omega⟩
+    simp only [retop, hcov', and_self, if_true, Nat.add_zero]
+    apply retop_none
+    intro d hd hcd
+    obtain ⟨m, hm⟩ := List.getElem?_of_mem hd
+    have := (contig_get (Int.le_refl 0) rest a hc (m + 1) d (by simpa using hm)).2.2 (by omega)
+    unfold Covers at hcd
+    omega
+  | a :: rest, k + 1, c, i0, top, off, hc, hk, hcov => by
+    have hge := (contig_get (Int.le_refl 0) rest a hc (k + 1) c hk).2.2 (by omega)
+    have hna : ¬ (a.row ≤ 0 ∧ a.row + (a.height : Int) > 0) := by
+      unfold Covers at hcov; omega
+    have hrest : Contig 0 rest := by
+      cases rest with
+      | nil => trivial
+      | cons d r => exact hc.2
+    simp only [retop, hna, if_false]
+    rw [retop_hit rest k c (i0 + 1) top off hrest (by simpa using hk) hcov]
+    congr 2; omega
+
+/-- The repaired insertion loop (`stops = true`) over a builder that has every index up to `top`:
+    the first child of the result is item `top'` at row `ah'`, it ends below row 0, and the loop
+    stopped because the height was used up or item 0 was reached. -/
+theorem insertLoop_exact (hs : List Nat) : ∀ (fuel top : Nat) (ah : Int) (acc : List Child),
+    top < U → top < fuel → top < hs.length → ah > 0 →
+    ∃ h, (insertLoop true hs fuel top ah acc).2.2.head? =
+        some { idx := (insertLoop true hs fuel top ah acc).1, row := (insertLoop true hs fuel top ah acc).2.1, height := h } ∧
+      0 < (insertLoop true hs fuel top ah acc).2.1 + (h : Int) ∧
+      ((insertLoop true hs fuel top ah acc).2.1 ≤ 0 ∨ (insertLoop true hs fuel top ah acc).1 = 0) := by
+  intro fuel
+  induction fuel with
+  | zero => intro top ah acc _ h; omega
+  | succ fuel ih =>
+    intro top ah acc hU hfu hn hpos
+    have hb : builder hs top = some hs[top] := by unfold builder; exact List.getElem?_eq_getElem hn
+    simp only [insertLoop, hpos, if_true, hb]
+    split
+    · rename_i hstop
+      refine ⟨hs[top], rfl, by simp only []; omega, ?_⟩
+      rcases hstop with h | h
+      · exact Or.inr h
+      · exact Or.inl h.2
+    · rename_i hcont
+      have h0 : top ≠ 0 := fun h => hcont (Or.inl h)
+      have hah : ah - (hs[top] : Int) > 0 := by
+        have : ¬ (ah - (hs[top] : Int) ≤ 0) := fun h => hcont (Or.inr ⟨by simp, h⟩)
+        omega
+      have hu := usub_one h0 hU
+      rw [hu]
+      exact ih (top - 1) (ah - (hs[top] : Int)) _ (by omega) (by omega) (by omega) hah
 
 end VaxisModel.Lemmas.DynList
